@@ -308,7 +308,7 @@ def extract_function(inference_state, path, module_context, name, pos, until_pos
     return Refactoring(inference_state, file_to_node_changes)
 
 
-def _check_for_non_extractables(nodes):
+def _check_for_non_extractables(nodes, in_loop=False):
     for n in nodes:
         try:
             children = n.children
@@ -318,8 +318,22 @@ def _check_for_non_extractables(nodes):
                     'Can only extract return statements if they are at the end.')
             if n.value == 'yield':
                 raise RefactoringError('Cannot extract yield statements.')
+            if n.type == 'keyword' and n.value in ('break', 'continue') and not in_loop:
+                raise RefactoringError(
+                    'Cannot extract a %s statement without its loop.' % n.value)
         else:
-            _check_for_non_extractables(children)
+            if n.type in ('for_stmt', 'while_stmt'):
+                # The else clause of a loop is not part of the loop anymore.
+                else_index = len(children)
+                for i, child in enumerate(children):
+                    if child.type == 'keyword' and child.value == 'else':
+                        else_index = i
+                _check_for_non_extractables(children[:else_index], in_loop=True)
+                _check_for_non_extractables(children[else_index:], in_loop)
+            elif n.type in ('funcdef', 'classdef', 'lambdef'):
+                _check_for_non_extractables(children)
+            else:
+                _check_for_non_extractables(children, in_loop)
 
 
 def _is_name_input(module_context, names, first, last):
